@@ -39,7 +39,8 @@ Theorem C02_frame_contents : forall c w op slices key fr w',
                        /\ w' = fold_left wwrite_total slices w).
 Proof. exact (send_one_shape utf8_valid deflate_raw deflate_wf deflate_small). Qed.
 
-(* the receiving side keeps the same window: under the inflate/deflate round-trip hypothesis the reader model, started
+(* the receiving side keeps the same window (histories may interleave pings/pongs with payloads, which are delivered to
+   OnPing/OnPong and touch neither window): under the inflate/deflate round-trip hypothesis the reader model, started
    with a window equal to the sender's, delivers every message intact and ends with a window equal to the sender's *)
 Hypothesis H_flate : forall d p lim, (Z.of_nat (length p) <= lim)%Z ->
   inflate d (strip_tail (deflate_raw d p) ++ flate_tail9) lim = Some p.
